@@ -41,7 +41,13 @@ type lockCfg struct {
 	// EqualDurations: the exit delay equals the unlock delay (legal: only exit < unlock is refused),
 	// so ordinary and exit unlocks of one block share one maturity slot
 	EqualDurations bool `json:"exit_delay_equals_unlock_delay,omitempty"`
+	// DoubleSignFraction, when set, replaces the double-sign slash fraction (e.g. "-0.05"); a
+	// configuration is only explored if the chain's own genesis validation admits it
+	DoubleSignFraction string `json:"double_sign_fraction,omitempty"`
 }
+
+// admitted reports whether the module's own parameter validation accepts the configuration.
+func (c lockCfg) admitted() error { return c.genesis().LockingParams.Validate() }
 
 type jailSpec struct {
 	Btc string `json:"btc"`
@@ -71,6 +77,9 @@ func (c lockCfg) genesis() *sim.GenesisCfg {
 		}
 		cfg.Vals = append(cfg.Vals, sim.ValSpec{Key: sim.NewKey(fmt.Sprintf("cand-%d", len(c.Powers)+i)), Status: lockingtypes.Downgrade,
 			Locking: coins, JailedUntil: cfg.Time.Add(time.Duration(c.JailSecs) * time.Second)})
+	}
+	if c.DoubleSignFraction != "" {
+		cfg.LockingParams.SlashFractionDoubleSign = math.LegacyMustNewDecFromStr(c.DoubleSignFraction)
 	}
 	if c.EqualDurations {
 		cfg.LockingParams.ExitingDuration = cfg.LockingParams.UnlockDuration
